@@ -107,7 +107,7 @@ fn acosd(rcos: f32) -> f32 {
 /// month [1-12]
 /// day [1-31]
 pub fn nday_from_md(month: u32, day: u32) -> u32 {
-    assert!(month < 13 && day < 31);
+    assert!((1..=12).contains(&month) && (1..=31).contains(&day));
     let past_months_days: u32 = MONTH_DAYS[..(month - 1) as usize].iter().sum();
     past_months_days + day
 }
